@@ -86,16 +86,16 @@ def run(c):
             c.record("decoder-table", "R7", key, d + " (%d decoded, %d refused)" % (n_dec, len(REFUSED)), "hold", [fn_loc(f)])
     # --- header reader
     MH = "<grin_p2p::msg::MsgHeaderWrapper as grin_core::ser::Readable>::read"
-    c.r1("magic-checked", MH, "grin_core::ser::Reader::expect_u8", via=0)
+    c.r1("magic-checked", MH, "grin_core::ser::Reader::expect_u8", via=2)
     c.r2_arg("magic-bytes", MH, "grin_core::ser::Reader::expect_u8", 1, must=["call:msg::magic"], floor=2)
-    c.r1("magic-before-length", MH, "grin_core::ser::Reader::expect_u8", sink="grin_core::ser::Reader::read_u64", via=0)
+    c.r1("magic-before-length", MH, "grin_core::ser::Reader::expect_u8", sink="grin_core::ser::Reader::read_u64", via=2)
     c.r2("limit-known", MH, ops={"Gt"}, lhs=["call:Reader::read_u64"], rhs=["call:msg::max_msg_size", "op:MulWithOverflow", "const:4"], err="TooLargeReadErr", dominate=False)
     c.r2("limit-unknown", MH, ops={"Gt"}, lhs=["call:Reader::read_u64"], rhs=["call:msg::default_max_msg_size", "op:MulWithOverflow", "const:4"], err="TooLargeReadErr", dominate=False)
     c.r2("limit-dominates", MH, ops={"Gt"}, lhs=["call:Reader::read_u64"], rhs=["re:^call:msg::(default_)?max_msg_size$", "op:MulWithOverflow", "const:4"], err="TooLargeReadErr", min_guards=2)
     c.r2_arg("limit-by-type", MH, M + "max_msg_size", 0, must=["call:FromPrimitive::from_u8", "call:Reader::read_u8"])
     # body reads only with a length taken from an accepted header
     c.r2_arg("body-length", M + "read_body", "re:alloc::vec::from_elem$", 1, must=["arg0.msg_len"])
-    c.r1("read-message-header-first", M + "read_message", M + "read_header", sink="re:msg::read_body$|msg::read_discard$", via=0)
+    c.r1("read-message-header-first", M + "read_message", M + "read_header", sink="re:msg::read_body$|msg::read_discard$", via=2)
     # --- codec
     NL = CO + "Codec::next_len"
     key = c.getfn(NL)
@@ -119,24 +119,24 @@ def run(c):
         c.lost("next-len-bounded", "R2", NL, d, "function not found")
     RI = CO + "Codec::read_inner"
     c.r2_arg("fill-size", RI, "re:bytes::bytes_mut::BytesMut::reserve$", 1, must=["call:num::saturating_sub", "call:Codec::next_len", "call:BytesMut::len"])
-    c.r1("unknown-skipped", RI, "re:bytes::buf::buf_impl::Buf>::advance$|Buf::advance$", start=None, sink="return", via=0, called_only=True,
+    c.r1("unknown-skipped", RI, "re:bytes::buf::buf_impl::Buf>::advance$|Buf::advance$", start=None, sink="return", via=2, called_only=True,
          extra_cuts=_not_unknown_edges(c, RI), desc="Codec::read_inner: an unknown message type advances the buffer before returning") if False else None
     c.r2_arg("unknown-skips-announced-length", RI, "re:bytes::buf::buf_impl::Buf>::advance$|Buf::advance$", 1, text=r"^Codec::next_len\(arg0\)$",
              desc="Codec::read_inner: an unknown message type skips exactly next_len() bytes (the announced, limit-checked length)")
     c.r2("headers-exhausted-bytes", RI, ops={"Eq"}, lhs=["re:bytes_left$"], rhs=["const:0"], err="BadMessage", dominate=False)
     c.r2("headers-leftover-bytes", RI, ops={"Gt"}, lhs=["re:bytes_left$"], rhs=["const:0"], err="BadMessage", dominate=False)
-    c.r1("known-messages-decoded", RI, CO + "decode_message", sink="return", via=0, called_only=True, extra_cuts=[]) if False else None
+    c.r1("known-messages-decoded", RI, CO + "decode_message", sink="return", via=2, called_only=True, extra_cuts=[]) if False else None
     # --- handshake
     c.r2_ret("negotiate-min", HS + "negotiate_protocol_version", must=["call:cmp::min", "arg0.protocol_version", "arg1"], must_not=["call:cmp::max"])
     for side, msg in (("accept", "Hand"), ("initiate", "Shake")):
         fn = HS + side
         c.r2("%s-genesis" % side, fn, ops={"Ne"}, lhs=["call:msg::read_message", "re:\\.genesis$"], rhs=["arg0.genesis"], err="GenesisMismatch")
-        c.r1("%s-negotiates" % side, fn, HS + "negotiate_protocol_version", via=0)
+        c.r1("%s-negotiates" % side, fn, HS + "negotiate_protocol_version", via=2)
         c.r2_arg("%s-negotiates-peer-version" % side, fn, HS + "negotiate_protocol_version", 1, must=["call:msg::read_message", "re:\\.version$"])
     A = HS + "accept"
     c.r2("accept-self-connection", A, cond=r"^VecDeque::contains\(RwLock::read\(arg0\.nonces\), msg::read_message\(.*\.nonce\)$", fail_on=True, err=None,
          desc="Handshake::accept: a Hand carrying one of our own nonces (connection to self) is refused")
-    c.r1("shake-after-refusals", A, HS + "negotiate_protocol_version", sink=M + "write_message", via=0)
+    c.r1("shake-after-refusals", A, HS + "negotiate_protocol_version", sink=M + "write_message", via=2)
     c.r2_arg("shake-version", A, M + "Msg::new", 2, must=["call:Handshake::negotiate_protocol_version"])
     c.r2_arg("shake-written-with-negotiated-version", A, M + "write_message", 1, must=["call:msg::Msg::new" if False else "call:Msg::new"])
     c.r2_assign("msg-len-from-body", M + "Msg::new", "msg_len", must=["call:Vec::len"]) if False else None
